@@ -7,5 +7,5 @@ git apply "$patch" || { echo "patch does not apply"; exit 2; }
 trap 'git -C /repo checkout -- . ; git -C /repo status --short | head -3' EXIT
 for p in "$@"; do
   echo "=== $p"
-  (cd /verif && VERIF_BUDGET_S=${BUDGET:-25} ./check $p quick 2>&1 | grep -E "^VIOLATION|^--- |quick:|exit 2|KNOWN" | cut -c1-420 | head -8)
+  (cd /verif && VERIF_EVIDENCE_DIR=/dev/shm/seedtest-evidence VERIF_BUDGET_S=${BUDGET:-25} ./check $p quick 2>&1 | grep -E "^VIOLATION|^--- |quick:|exit 2|KNOWN" | cut -c1-420 | head -8)
 done
